@@ -440,6 +440,22 @@ var (
 
 func pick(r *rand.Rand, l []string) string { return l[r.Intn(len(l))] }
 
+// printf verbs and other escape-ish metacharacters that must go into the
+// hashed string verbatim
+var spices = []string{"%", "%s", "%d", "%v", "%%", "%!", "%20", "100%", "%!s(MISSING)", "%x", "%+v", "%[1]s", "%*d", "%q", "\\", "\\n", "\t", "\n", "<", "&", "/", "'", "\"", ">", "%"}
+
+// txt picks a text from the pool and, one time in four, inserts a
+// metacharacter sequence at a random position.
+func txt(r *rand.Rand, l []string) string {
+	s := pick(r, l)
+	if r.Intn(4) == 0 {
+		rs := []rune(s)
+		i := r.Intn(len(rs) + 1)
+		s = string(rs[:i]) + pick(r, spices) + string(rs[i:])
+	}
+	return s
+}
+
 func genForm(r *rand.Rand, used map[string]bool) frm {
 	f := frm{}
 	if r.Intn(12) == 0 && !used[""] {
@@ -449,21 +465,21 @@ func genForm(r *rand.Rand, used map[string]bool) frm {
 	nf := r.Intn(5)
 	seen := map[string]bool{"FORM_TYPE": true}
 	for i := 0; i < nf; i++ {
-		v := pick(r, vars)
+		v := txt(r, vars)
 		if seen[v] {
 			continue
 		}
 		seen[v] = true
 		fd := fld{Var: v, Typ: pick(r, fieldTypes)}
 		for k, n := 0, []int{0, 1, 1, 1, 2, 2, 3, 4}[r.Intn(8)]; k < n; k++ {
-			fd.Vals = append(fd.Vals, pick(r, vals))
+			fd.Vals = append(fd.Vals, txt(r, vals))
 		}
 		f.Fields = append(f.Fields, fd)
 	}
 	key := ""
 	typed := r.Intn(6) != 0
 	if typed {
-		key = pick(r, ftypes)
+		key = txt(r, ftypes)
 	}
 	if used[key] {
 		// keep forms distinguishable: retry the key, else leave the form as it is
@@ -487,7 +503,7 @@ func genModel(r *rand.Rand) model {
 	var m model
 	seen := map[[3]string]bool{}
 	for i, n := 0, r.Intn(5); i < n; i++ {
-		id := ident{pick(r, cats), pick(r, typs), pick(r, langs), pick(r, names)}
+		id := ident{txt(r, cats), txt(r, typs), txt(r, langs), txt(r, names)}
 		if len(m.Idents) > 0 && r.Intn(2) == 0 {
 			// share a prefix of the sort key with an earlier identity
 			p := m.Idents[r.Intn(len(m.Idents))]
@@ -504,7 +520,7 @@ func genModel(r *rand.Rand) model {
 		m.Idents = append(m.Idents, id)
 	}
 	for i, n := 0, r.Intn(9); i < n; i++ {
-		m.Feats = append(m.Feats, pick(r, feats))
+		m.Feats = append(m.Feats, txt(r, feats))
 	}
 	used := map[string]bool{}
 	for i, n := 0, []int{0, 0, 1, 1, 1, 2, 2, 3}[r.Intn(8)]; i < n; i++ {
@@ -533,20 +549,20 @@ func malform(r *rand.Rand, m model) (model, string) {
 		f.Fields[ftIdx].Typ = pick(r, []string{"text-single", "", "fixed", "boolean", "jid-single", "list-multi", "bogus"})
 		return m, "FORM_TYPE-not-hidden"
 	case k == 1 && ftIdx >= 0:
-		f.Fields[ftIdx].Vals = append(f.Fields[ftIdx].Vals, pick(r, ftypes))
+		f.Fields[ftIdx].Vals = append(f.Fields[ftIdx].Vals, txt(r, ftypes))
 		return m, "FORM_TYPE-multi-valued"
 	case k == 2 && ftIdx >= 0:
 		f.Fields[ftIdx].Vals = nil
 		return m, "FORM_TYPE-without-value"
 	case k == 3:
-		f.Fields = append(f.Fields, fld{Var: "FORM_TYPE", Typ: "hidden", Vals: []string{pick(r, ftypes)}})
+		f.Fields = append(f.Fields, fld{Var: "FORM_TYPE", Typ: "hidden", Vals: []string{txt(r, ftypes)}})
 		if ftIdx < 0 {
-			f.Fields = append(f.Fields, fld{Var: "FORM_TYPE", Typ: "hidden", Vals: []string{pick(r, ftypes)}})
+			f.Fields = append(f.Fields, fld{Var: "FORM_TYPE", Typ: "hidden", Vals: []string{txt(r, ftypes)}})
 		}
 		return m, "FORM_TYPE-twice"
 	case k == 4 && len(f.Fields) > 0:
 		d := f.Fields[r.Intn(len(f.Fields))]
-		d.Vals = append([]string{pick(r, vals)}, d.Vals...)
+		d.Vals = append([]string{txt(r, vals)}, d.Vals...)
 		f.Fields = append(f.Fields, d)
 		return m, "duplicate-var"
 	case k == 5:
@@ -669,8 +685,9 @@ type tcase struct {
 
 type mon struct {
 	c    *core.Case
-	hh   crypto.Hash
-	dead bool // a panic was reported
+	hh   crypto.Hash      // the library's value, obtained the way its users obtain it
+	ref  func() hash.Hash // reference constructor for the same algorithm name
+	dead bool             // a panic was reported
 }
 
 // A defect that is present fails in a large share of the cases; a child
@@ -786,11 +803,18 @@ func shapeOf(m model) string {
 func run(c *core.Case) {
 	r := c.Rand
 	thorough := c.Tier == "thorough"
-	hs := hashes()
-	mo := &mon{c: c, hh: hs[r.Intn(len(hs))]}
-	c.Count("hash:"+mo.hh.String(), 1)
 	if !referenceSelfTest() {
 		c.Count("reference_selftest_failed", 1)
+		return
+	}
+	for _, a := range algos {
+		if a.ref() == nil {
+			c.Count("hash_not_linked:"+a.name, 1)
+		}
+	}
+	as := linked()
+	mo := obtainHash(c, r, as[r.Intn(len(as))])
+	if mo == nil {
 		return
 	}
 
@@ -808,6 +832,7 @@ func run(c *core.Case) {
 	}
 	c.Count("values", 1)
 	c.Sig("%s", shapeOf(gen))
+	countPercent(c, gen)
 	if len(gen.Forms) >= 2 {
 		c.Count("values_with_two_or_more_forms", 1)
 	}
@@ -845,7 +870,7 @@ func run(c *core.Case) {
 	// the construction of XEP-0115 5.1
 	if allTyped {
 		c.Count("reference_comparisons", 1)
-		if want := refHash(gen, mo.hh.New()); h0 != want {
+		if want := refHash(gen, mo.ref()); h0 != want {
 			mo.violate("caps:ref", "%s: Hash = %q on the value with every list already in order, XEP-0115 5.1 gives %q for S = %q; value %+v", mo.hh, h0, want, refString(gen), base)
 			return
 		}
@@ -1001,7 +1026,7 @@ func run(c *core.Case) {
 			// the peer's reply against XEP-0115 5.1 computed from the raw document
 			if allTyped {
 				c.Count("reference_comparisons_decoded", 1)
-				if want := refHash(raw, mo.hh.New()); hu != want {
+				if want := refHash(raw, mo.ref()); hu != want {
 					cause := "other"
 					if emptyValue {
 						cause = "empty-value"
@@ -1045,7 +1070,7 @@ func (mo *mon) malformed(r *rand.Rand, m model, what string) {
 
 func witness(m model, viaDoc bool, check func(c *core.Case, mo *mon)) func(*core.Case) {
 	return func(c *core.Case) {
-		mo := &mon{c: c, hh: crypto.SHA1}
+		mo := &mon{c: c, hh: crypto.SHA1, ref: sha1.New}
 		if viaDoc {
 			doc := document(m, c.Rand, false)
 			v, ok := mo.unmarshal(doc)
@@ -1093,19 +1118,23 @@ func Prop() *core.Prop {
 		"permutations_fields", "permutations_values", "permutations_combined", "values_unmarshalled", "values_from_GetInfo", "decoded_values_with_an_empty_value", "reference_comparisons_decoded", "malformed_values", "malformed_values_unmarshalled",
 		"hash_calls", "appendhash_calls",
 	}
-	for _, h := range hashes() {
-		req = append(req, "hash:"+h.String())
+	for _, a := range linked() {
+		req = append(req, "hash:"+a.name, "hash_function_checks:"+a.name)
 	}
+	req = append(req, "hash_obtained_from:constant", "hash_obtained_from:crypto.Parse", "hash_obtained_from:caps-element",
+		"percent_in_identity_category", "percent_in_identity_type", "percent_in_identity_lang", "percent_in_identity_name",
+		"percent_in_feature", "percent_in_form_type", "percent_in_field_var", "percent_in_field_value")
 	return &core.Prop{
 		ID:    "C20",
 		Level: core.Exploration,
-		Rule:  "each case is one PRNG disco#info value: 0-4 identities distinct in (category, type, lang) that often share key prefixes, 0-8 features (duplicates, prefixes of one another, '<', non-ASCII, empty), 0-3 forms distinguishable by FORM_TYPE (about 1 in 6 without FORM_TYPE, 1 in 12 empty) with 0-4 distinctly named fields of every field type and 0-4 values; one hash function per case drawn from the linked functions of crypto's list. From the arrangement with every list in octet order the monitor compares Hash with an independent XEP-0115 5.1 implementation (values whose forms all carry FORM_TYPE), then permutes one list at a time (all permutations up to 3 elements, 4 in thorough; reversal, rotation and 3 samples beyond), then shuffles everything, building the value directly and by decoding a generated <query/> document with interleaved children; every Hash call is accompanied by AppendHash with three empty destinations and a repeated Hash. One case in six is an ill-formed shape of XEP-0115 5.4 (FORM_TYPE not hidden / multi-valued / valueless / twice, duplicate var, fixed fields without var, duplicate identity key, duplicate form) for which only no panic, Hash = AppendHash and repeatability are demanded. distinct = distinct value shapes (identities, features<=4, per form: FORM_TYPE present, fields, max values).",
+		Rule:  "each case is one PRNG disco#info value: 0-4 identities distinct in (category, type, lang) that often share key prefixes, 0-8 features (duplicates, prefixes of one another, '<', non-ASCII, empty), 0-3 forms distinguishable by FORM_TYPE (about 1 in 6 without FORM_TYPE, 1 in 12 empty) with 0-4 distinctly named fields of every field type and 0-4 values; one hash function per case drawn from the linked functions of crypto's list, obtained from the library by one of three routes and first checked against the reference constructor on fixed probes; one text in four carries a printf verb or another metacharacter (%, %s, %d, %v, %%, %!, %20, backslash, tab, newline, <, &, /, quotes) at a random position. From the arrangement with every list in octet order the monitor compares Hash with an independent XEP-0115 5.1 implementation (values whose forms all carry FORM_TYPE), then permutes one list at a time (all permutations up to 3 elements, 4 in thorough; reversal, rotation and 3 samples beyond), then shuffles everything, building the value directly and by decoding a generated <query/> document with interleaved children; every Hash call is accompanied by AppendHash with three empty destinations and a repeated Hash. One case in six is an ill-formed shape of XEP-0115 5.4 (FORM_TYPE not hidden / multi-valued / valueless / twice, duplicate var, fixed fields without var, duplicate identity key, duplicate form) for which only no panic, Hash = AppendHash and repeatability are demanded. distinct = distinct value shapes (identities, features<=4, per form: FORM_TYPE present, fields, max values).",
 		Assumptions: []string{
 			"the reference implementation in props/c20 is XEP-0115 5.1 with i;octet ordering; it reproduces the two worked examples of the XEP (checked at start-up, otherwise the run is inconclusive)",
 			"permutation invariance is demanded of values that are sets: identities distinct in (category, type, lang), field names distinct inside a form, FORM_TYPE hidden and single-valued or absent, forms pairwise distinguishable by FORM_TYPE; the values of a FORM_TYPE field are never permuted",
 			"equality with XEP-0115 5.1 is demanded only when every form carries a FORM_TYPE (5.1 does not say what to do otherwise)",
 			"a fresh hash.Hash is passed to every call; a destination is 'empty' when its length is 0 (nil, []byte{}, or spare capacity only)",
-			"hash functions covered are those linked into the harness without changing harness/go.mod: the five in the standard library; build tag verif_xcrypto adds the sha3 and blake2b ones",
+			"the library side always gets its hash.Hash from the library (crypto.Hash.New on a value obtained from the exported constant, crypto.Parse or a decoded <c hash=.../> element); the reference side picks its constructor by algorithm name without the library: crypto/sha1, crypto/sha256 and crypto/sha512 directly, and for sha3 the implementation the Go distribution registers with crypto.RegisterHash",
+			"hash functions covered are the seven that are linked into the harness without changing harness/go.mod (sha-1, sha-224, sha-256, sha-384, sha-512, sha3-256, sha3-512); blake2b256/blake2b512 need golang.org/x/crypto as a direct and golang.org/x/sys as an indirect requirement of the harness module (build tag verif_xcrypto links them) and are counted as hash_not_linked",
 		},
 		Cases: func(tier string) int {
 			if tier == "thorough" {
